@@ -38,6 +38,11 @@ Apply(S, o) ==
     CASE o.op = "Add"       -> Pure(S, Add(Cap(o.a), Cap(o.b)), Cap(o.a), Cap(o.b))
       [] o.op = "Sub"       -> Pure(S, Sub(Cap(o.a), Cap(o.b)), Cap(o.a), Cap(o.b))
       [] o.op = "AddSub"    -> Pure(S, Sub(Add(Cap(o.a), Cap(o.b)), Cap(o.b)), Cap(o.a), Cap(o.b))   \* (a+b)-b
+      \* printing is an observation: the operands print, and behave afterwards, exactly as before
+      [] o.op = "ShowAdd"   -> Pure(S, Add(Cap(o.a), Cap(o.b)), Cap(o.a), Cap(o.b))
+      [] o.op = "ShowSub"   -> Pure(S, Sub(Cap(o.a), Cap(o.b)), Cap(o.a), Cap(o.b))
+      [] o.op = "ShowLt"    -> Pure(S, Le(Cap(o.a), Cap(o.b)), Cap(o.a), Cap(o.b))
+      [] o.op = "ShowLedger" -> R(S, "ok", [k |-> "ledger", free |-> Free(S)])
       [] o.op = "Gt"        -> Pure(S, Ge(Cap(o.a), Cap(o.b)), Cap(o.a), Cap(o.b))
       [] o.op = "Lt"        -> Pure(S, Le(Cap(o.a), Cap(o.b)), Cap(o.a), Cap(o.b))
       [] o.op = "Eq"        -> Pure(S, Eq(Cap(o.a), Cap(o.b)), Cap(o.a), Cap(o.b))
